@@ -35,7 +35,18 @@ RULE = (
     "operations - must equal the first; the remaining clauses are applied to the second result.  In some cases a "
     "second history is run: prime the operation, overwrite the value arrays of its operands in place (reversed "
     "entries plus one), call again; the result must equal that of the same call on freshly built operands edited "
-    "the same way before any call (clauses second-*, stale-after-in-place-edit, edit-history-outcome-differs)."
+    "the same way before any call (clauses second-*, stale-after-in-place-edit, edit-history-outcome-differs).  "
+    "Round 3: (forks) when the storage clauses found nothing, every operand and then the result is changed through a "
+    "*documented in-place operation* (item assignment of the first and last entry for tensor / sptensor / tenmat; "
+    "normalize, redistribute or arrange for a Kruskal tensor) and the other side is judged again (clauses "
+    "result-changed-by-in-place-op-on:<operand>, operand-changed-by-in-place-op-on:<operand>, "
+    "operand-changed-by-in-place-op-on-result:<operand>; labels fork:*); (special values) tensor-like operands anywhere "
+    "in a case are, in one case out of six, in units of 1e-9 / 1e-10 / 1e-12 / 1e9 / 1e12 (labels mag-*), auxiliary "
+    "vectors / matrices are also the identity / first unit vector exactly or perturbed by 1e-9, or in units of 1e-9 / "
+    "1e9, ttv cells draw unit and all-ones vectors, masks select everything / nothing; (degenerate requests) reads and "
+    "writes with empty index arrays, empty subscript arrays, empty or stepped or reversed slices (labels key-*-empty); "
+    "(large) C05/large/<class>: an operation of the class on an operand above internal block sizes (1e4..6e4 stored "
+    "nonzeros, 1e5..1e6 cells, rank 10..20), stored as a compact description and expanded from its seed."
 )
 ASSUMPTIONS = [
     "wall-clock measurements inside a result (any path mentioning 'time') are not values: they are ignored when two "
@@ -53,6 +64,14 @@ ASSUMPTIONS = [
     "a write is observed through the public attributes only (data, subs, vals, weights, factor_matrices, core, parts, "
     "rindices, cindices, rdims, cdims; scipy.sparse data/row/col/indices/indptr)",
     "np.random.seed(case['np_seed']) immediately before every call that may draw random numbers",
+    "(round 3) the fork step uses item assignment and the Kruskal re-parameterisations as the documented in-place "
+    "operations; ttensor, sumtensor and sptenmat operands have none that applies to every object and are covered by the "
+    "raw writes only; operands that are one object (or views of one another) by construction of the case are not judged "
+    "against each other",
+    "(round 3) the algorithm cells (alg/*) keep data of order one: they have preconditions on their data (counts, "
+    "non-negativity) and run long on badly scaled data",
+    "(round 3) an empty request returns arrays without memory, so the aliasing clauses have nothing to judge there; "
+    "what is judged is that the operands (key arrays included) stay bit-identical and that a no-op write changes nothing",
 ]
 PREDICATES = R.PREDICATES
 
@@ -61,3 +80,4 @@ from . import _c05_sptensor  # noqa: E402,F401
 from . import _c05_kruskal  # noqa: E402,F401
 from . import _c05_mat  # noqa: E402,F401
 from . import _c05_alg  # noqa: E402,F401
+from . import _c05_large  # noqa: E402,F401
